@@ -703,32 +703,38 @@ Definition w_derived : fsys :=
 Definition run_default (fs : fsys) : option cfg := effective real_schema fs (default_files root_env) [] [].
 Definition srcs_default (fs : fsys) : list file := sources fs (read_order (default_files root_env) []).
 
+(* the value of one option in an optional configuration (evaluates the state at one point only) *)
+Definition value_at (r : option cfg) (o : opt) : option (list str) := option_map (fun c => c o) r.
+
+Lemma value_at_some r o v : value_at r o = Some v -> exists c, r = Some c /\ c o = v.
+Proof. destruct r as [c|]; cbn; [intros [= <-]; now exists c|discriminate]. Qed.
+
 Lemma witness_blank :
-  exists c, run_default w_blank = Some c
-    /\ c o_bfn = [s "BUILD"; s "BUILD.plz"] /\ spec_value real_schema o_bfn (srcs_default w_blank) [] = []
-    /\ defect_class real_schema (srcs_default w_blank) [] o_bfn = Some BlankResetDefault.
-Proof. eexists. split; [vm_compute; reflexivity|]. vm_compute. repeat split. Qed.
+  value_at (run_default w_blank) o_bfn = Some [s "BUILD"; s "BUILD.plz"]
+  /\ spec_value real_schema o_bfn (srcs_default w_blank) [] = []
+  /\ defect_class real_schema (srcs_default w_blank) [] o_bfn = Some BlankResetDefault.
+Proof. vm_compute. repeat split. Qed.
 
 Lemma witness_preset :
-  exists c, run_default w_preset = Some c
-    /\ c o_maven = [s "https://repo1.maven.org/maven2"; s "https://jcenter.bintray.com/"; s "https://a.example/x"]
-    /\ spec_value real_schema o_maven (srcs_default w_preset) [] = [s "https://a.example/x"]
-    /\ defect_class real_schema (srcs_default w_preset) [] o_maven = Some PresetListKept.
-Proof. eexists. split; [vm_compute; reflexivity|]. vm_compute. repeat split. Qed.
+  value_at (run_default w_preset) o_maven
+    = Some [s "https://repo1.maven.org/maven2"; s "https://jcenter.bintray.com/"; s "https://a.example/x"]
+  /\ spec_value real_schema o_maven (srcs_default w_preset) [] = [s "https://a.example/x"]
+  /\ defect_class real_schema (srcs_default w_preset) [] o_maven = Some PresetListKept.
+Proof. vm_compute. repeat split. Qed.
 
 Lemma witness_derived :
-  exists c, run_default w_derived = Some c
-    /\ c o_gotool = [s "/usr/lib/go/bin/go"]
-    /\ spec_value real_schema o_gotool (srcs_default w_derived) [] = [s "/usr/bin/go"]
-    /\ defect_class real_schema (srcs_default w_derived) [] o_gotool = Some DerivedOverwrite.
-Proof. eexists. split; [vm_compute; reflexivity|]. vm_compute. repeat split. Qed.
+  value_at (run_default w_derived) o_gotool = Some [s "/usr/lib/go/bin/go"]
+  /\ spec_value real_schema o_gotool (srcs_default w_derived) [] = [s "/usr/bin/go"]
+  /\ defect_class real_schema (srcs_default w_derived) [] o_gotool = Some DerivedOverwrite.
+Proof. vm_compute. repeat split. Qed.
 
 Lemma full_value_clause_false :
   ~ (forall sch fs filenames profiles ovs c, wf_schema sch ->
        effective sch fs filenames profiles ovs = Some c ->
        forall o, c o = spec_value sch o (sources fs (read_order filenames profiles)) ovs).
 Proof.
-  intros H. destruct witness_blank as [c [Hc [Hv [Hs _]]]].
+  intros H. destruct witness_blank as [Hv [Hs _]].
+  apply value_at_some in Hv as [c [Hc Hv]].
   specialize (H real_schema w_blank (default_files root_env) [] [] c real_schema_wf Hc o_bfn).
   unfold srcs_default in Hs. rewrite Hs, Hv in H. discriminate.
 Qed.
